@@ -145,6 +145,8 @@ class Engine:
         self.fresh_objs = set()
         self._comp = None
         self.inline_depth = 0
+        self._feas_cache = {}
+        self._merge_raise_stmt = None
 
     # ------------------------------------------------------------------ driver
     def run(self) -> List[VC]:
@@ -203,6 +205,15 @@ class Engine:
         return c
 
     def _feasible(self) -> bool:
+        key = tuple(c for c, _, _ in self.ch.trace)
+        hit = self._feas_cache.get(key)
+        if hit is not None:
+            return hit
+        r = self._feasible_uncached()
+        self._feas_cache[key] = r
+        return r
+
+    def _feasible_uncached(self) -> bool:
         s = z3.Solver()
         s.set("timeout", 300)
         for a in self.reg.axioms_for(self.c):
@@ -240,6 +251,8 @@ class Engine:
             else:
                 raise OutOfReach(f"{c.key}: parameter {a} has no declared sort")
             st.env[a] = v
+            if a == "cls" and v.k == "obj":
+                st.env["self"] = v
             self.inputs[a] = v
         for g, srt in c.ghost.items():
             v = fresh_of_sort(parse_sort(srt), g, facts)
@@ -318,7 +331,7 @@ class Engine:
             if oid in self.fresh_objs or any(oid.startswith(f + ".") for f in self.fresh_objs):
                 continue
             path = f"{oid}.{fld}"
-            if path in allowed or (oid == "self" and fld in allowed):
+            if path in allowed or (oid == "self" and fld in allowed) or f"*.{fld}" in allowed:
                 continue
             old = st.init_heap.get((oid, fld))
             if old is None:
@@ -563,6 +576,10 @@ class Engine:
             self.st.env[t.id] = v
         elif isinstance(t, ast.Attribute):
             obj = self.ev(t.value)
+            if obj.k == "opt" and obj.t[1].k == "obj":
+                if self.branch(obj.t[0], f"nonestore{getattr(t, 'lineno', 0) - self.x.lineno}"):
+                    raise PyRaise("AttributeError")
+                obj = obj.t[1]
             if obj.k != "obj":
                 raise OutOfReach(f"{self.c.key}: attribute store on {obj.k}")
             srt = self.reg.field_sort(obj.cls, t.attr)
@@ -624,11 +641,35 @@ class Engine:
                 self.assign(item.optional_vars, self.ext_result(summ, name))
         self.exec_block(s.body)
 
+    def _trivial_catch_all(self, s) -> bool:
+        if s.orelse or s.finalbody or len(s.handlers) != 1:
+            return False
+        h = s.handlers[0]
+        if h.type is not None and self.dotted(h.type) not in ("Exception", "BaseException"):
+            return False
+        for st_ in h.body:
+            if isinstance(st_, ast.Pass):
+                continue
+            if isinstance(st_, ast.Expr) and isinstance(st_.value, ast.Call):
+                d = self.dotted(st_.value.func)
+                if d is not None and (d in DROPPED_CALLEES or d.startswith(DROPPED_CALLEE_PREFIXES)):
+                    continue
+            return False
+        return True
+
     def st_Try(self, s):
         saved_label_len = None
+        prev_merge = self._merge_raise_stmt
+        if self._trivial_catch_all(s) and isinstance(s.body[-1], ast.Expr):
+            # a raise from the last statement of `try: ...; f() except: log` continues exactly like a normal return of
+            # f() (the external's effects are applied in both outcomes): one path instead of two
+            self._merge_raise_stmt = s.body[-1].value
         try:
             try:
-                self.exec_block(s.body)
+                try:
+                    self.exec_block(s.body)
+                finally:
+                    self._merge_raise_stmt = prev_merge
             except PyRaise as e:
                 handled = False
                 for h in s.handlers:
@@ -974,6 +1015,8 @@ class Engine:
             return self.st.env[nm]
         if nm in ("True", "False"):
             return mk_bool(nm == "True")
+        if nm in self.closures:
+            return V("func", self.closures[nm])
         k = self.c.consts
         if nm in k:
             return self.pyval(k[nm])
@@ -1098,7 +1141,13 @@ class Engine:
         vals = n.values
         is_and = isinstance(n.op, ast.And)
         if self.spec_mode:
-            ts = [self.truth(self.ev(v)) for v in vals]
+            ts = []
+            for v in vals:
+                t = self.truth(self.ev(v))
+                ts.append(t)
+                ts_ = z3.simplify(t)
+                if (is_and and z3.is_false(ts_)) or (not is_and and z3.is_true(ts_)):
+                    break       # lazy, like Python: later operands may mention locals undefined on this path
             return mk_bool(z3.And(ts) if is_and else z3.Or(ts))
         # value semantics with short-circuit
         cur = self.ev(vals[0])
@@ -1462,6 +1511,10 @@ class Engine:
                     return r
             if nm in self.closures and nm not in self.st.env:
                 return self.call_closure(self.closures[nm], n)
+            if nm in self.st.env and self.st.env[nm].k == "func" and isinstance(self.st.env[nm].t, ast.FunctionDef):
+                return self.call_closure(self.st.env[nm].t, n)
+            if nm in self.st.env and self.st.env[nm].k in ("opaque", "opt") and "call:opaque" in self.c.externals:
+                return self.ext_call(self.c.externals["call:opaque"], nm, n)
             r = self.builtin_call(nm, n)
             if r is not None:
                 return r
@@ -1488,8 +1541,14 @@ class Engine:
                 self.st = saved
         if nm == "implies":
             a = self.truth(self.ev(n.args[0]))
+            if z3.is_false(z3.simplify(a)):
+                return mk_bool(True)       # lazy: the consequent may mention locals that do not exist on this path
             b = self.truth(self.ev(n.args[1]))
             return mk_bool(z3.Implies(a, b))
+        if nm == "truthy":
+            return mk_bool(self.truth(self.ev(n.args[0])))
+        if nm == "defined":
+            return mk_bool(n.args[0].value in self.st.env)
         if nm == "iff":
             return mk_bool(self.truth(self.ev(n.args[0])) == self.truth(self.ev(n.args[1])))
         if nm in ("forall", "exists"):
@@ -1571,18 +1630,24 @@ class Engine:
         # inline: shares the enclosing environment (reads of free variables, nonlocal writes);
         # parameters and plain locals shadow and are restored afterwards
         params = [a.arg for a in fdef.args.args]
-        args = [self.ev(a) for a in n.args]
-        if len(params) != len(args) or n.keywords:
+        args = [self.ev(a) for a in n.args if not isinstance(a, ast.Starred)]
+        extra = {}
+        if fdef.args.vararg is not None:
+            extra[fdef.args.vararg.arg] = V("opaque", z3.Const(fresh_name("varargs"), opaque_sort("Any")), "Any")
+        if fdef.args.kwarg is not None:
+            extra[fdef.args.kwarg.arg] = V("opaque", z3.Const(fresh_name("kwargs"), opaque_sort("Any")), "Any")
+        if len(params) != len(args) or (n.keywords and not extra):
             raise OutOfReach("closure call shape")
         nonlocals = set()
         for y in ast.walk(fdef):
             if isinstance(y, ast.Nonlocal):
                 nonlocals.update(y.names)
         stored = {x.id for x in ast.walk(fdef) if isinstance(x, ast.Name) and isinstance(x.ctx, ast.Store)}
-        shadow = (stored - nonlocals) | set(params)
+        shadow = (stored - nonlocals) | set(params) | set(extra)
         saved = {k: self.st.env.get(k) for k in shadow}
         for p, a in zip(params, args):
             self.st.env[p] = a
+        self.st.env.update(extra)
         try:
             try:
                 self.exec_block(fdef.body)
@@ -2012,6 +2077,9 @@ class Engine:
     def ext_call(self, summ: dict, d: str, n: ast.Call, recv: Optional[V] = None) -> V:
         args = []
         for a in n.args:
+            if isinstance(a, ast.Starred):
+                args.append(NONE)
+                continue
             try:
                 args.append(self.ev(a))
             except OutOfReach:
@@ -2021,7 +2089,11 @@ class Engine:
                     raise
         self.used_assumptions.append(f"external {d}: {summ.get('doc', 'declared summary')}")
         lab = f"ext{getattr(n, 'lineno', 0) - self.x.lineno}"
+        if summ.get("record_as"):
+            self.st.calls.setdefault(summ["record_as"], []).append({f"arg{i}": a for i, a in enumerate(args)})
         mr = summ.get("may_raise")
+        if mr and n is self._merge_raise_stmt:
+            mr = None       # swallowed by the enclosing effect-free catch-all: same continuation either way
         if mr:
             excs = [mr] if isinstance(mr, str) else list(mr)
             w = self.choose(lab, ["ok"] + excs)
@@ -2032,8 +2104,6 @@ class Engine:
                 raise PyRaise(excs[w - 1])
         for g, inc in summ.get("ghost", {}).items():
             self.st.ghost[g] = self.st.ghost.get(g, z3.IntVal(0)) + inc
-        if summ.get("record_as"):
-            self.st.calls.setdefault(summ["record_as"], []).append({f"arg{i}": a for i, a in enumerate(args)})
         self._ext_havoc(summ, args)
         res = self.ext_result(summ, d)
         post = summ.get("post")
